@@ -142,14 +142,20 @@ def matrix_of(op):
     return g.rotation_matrix_ypr(op[1], op[2], op[3])
 
 
+def as_arg(v):
+    """a vector argument as ndarray, list or tuple (deterministic in the value)"""
+    sel = int(abs(float(v[0])) * 4096) % 3
+    return np.array(v, float) if sel == 0 else ([float(x) for x in v] if sel == 1 else tuple(float(x) for x in v))
+
+
 def apply_impl(probe, op):
     k = op[0]
     if k in ("R", "Y"):
         c = op[2] if k == "R" else op[4]
-        ret = probe.rotate(matrix_of(op), None if c is None else np.array(c, float))
+        ret = probe.rotate(matrix_of(op), None if c is None else as_arg(c))
         assert ret is probe
     elif k == "T":
-        ret = probe.translate(np.array(op[1], float))
+        ret = probe.translate(as_arg(op[1]))
         assert ret is probe
     elif k == "F":
         probe.flip_probe_around_axis_Oz()
@@ -403,7 +409,13 @@ def gen_probe(rng, exact, scale, nmax):
     else:
         nx = int(rng.choice([s for s in sizes if s <= 8]))
         ny = int(rng.choice([s for s in sizes if s <= 8]))
-    return ["M", nx, pitch(), ny, pitch()], nx * ny
+    px, py = pitch(), pitch()
+    if rng.random() < 0.15:          # arguments of other numeric types: integer pitches, float / numpy sizes
+        px = int(px) if float(px).is_integer() and px != 0 else px
+        py = int(py) if float(py).is_integer() and py != 0 else py
+        nxa, nya = (float(nx), np.int64(ny)) if rng.random() < 0.5 else (np.int32(nx), float(ny))
+        return ["M", nxa, px, nya, py], nx * ny
+    return ["M", nx, px, ny, py], nx * ny
 
 
 def unit_random(rng):
@@ -517,7 +529,7 @@ def gen_malformed(rng):
     h = gen_history(rng, False, 6)
     h["kind"] = "malformed:" + kind
     h["ops"] = h["ops"][:int(rng.integers(0, 5))]
-    n = h["probe"][1] * h["probe"][3] if h["probe"][0] == "M" else len(h["probe"][1])
+    n = int(h["probe"][1]) * int(h["probe"][3]) if h["probe"][0] == "M" else len(h["probe"][1])
     if kind == "index":
         h["ops"].append(["S", int(rng.choice([n, n + 3, -n - 1, -n - 5]))])
         h["expect_error"] = True
@@ -531,8 +543,8 @@ def gen_malformed(rng):
         elif kind == "reflection":
             R = R @ np.diag([1.0, 1.0, -1.0])                      # improper, accepted by the code
         else:
+            # raises iff the sheared image of the current i_hat or j_hat is not unit (depends on the state)
             R = R @ np.array([[1.0, 0.3, 0], [0, 1.0, 0], [0, 0, 1.0]])
-            h["expect_error"] = True                                # |R j| = sqrt(1.09)
         h["proper"] = False
         c = None if rng.random() < 0.5 else rng.standard_normal(3).tolist()
         h["ops"].append(["R", R.ravel().tolist(), c])
@@ -575,77 +587,126 @@ for b in BOUNDARY:
 # ---------------------------------------------------------------------------
 # the comparison of one batch
 # ---------------------------------------------------------------------------
+def judge(h, out):
+    """compare one history (driver answer `out`) -> (number of states, findings);
+    finding = (key, what, extra replay fields, failing_input_found)"""
+    states, fc_ok = run_impl(h)
+    mstates = parse_model(out)
+    scale = history_scale(h)
+    finds = []
+    # ---- spec predicates on the implementation
+    spec_bad = []
+    if h["proper"] and not isinstance(states[0], tuple):
+        spec_bad = spec_checks(h, states, scale)
+        if h["probe"][0] == "M":
+            spec_bad += matrix_probe_spec(h, states[0], scale)
+        for key, msg, step in spec_bad[:3]:
+            finds.append(("spec:" + key, f"{msg} (after operation {step} of the history)", dict(step=step, predicate=key), True))
+    if fc_ok is False:
+        finds.append(("spec:frame_condition", "a motion changed frequency / dimensions / dead_elements / metadata", {}, True))
+    if h["proper"] and not h.get("expect_error") and isinstance(states[-1], tuple):
+        # theorem history_never_raises: an admissible history runs to its end
+        spec_bad.append(("never_raises", "an admissible operation raised", len(states) - 1))
+        finds.append(("spec:never_raises", f"an admissible operation raised {states[-1][1]} (operation {len(states) - 1} of the history)",
+                      dict(step=len(states) - 1, predicate="history_never_raises"), True))
+    if h.get("expect_error") and not isinstance(states[-1], tuple):
+        spec_bad.append(("error_expected", "", len(states) - 1))
+        finds.append(("spec:error_expected", "an invalid operation (index out of range / non-normalised axes / bad sizes) did not raise",
+                      {}, True))
+    # ---- correspondence
+    found = bool(spec_bad)
+    if len(states) != len(mstates):
+        finds.append(("tie:length", "implementation and model stop at different operations",
+                      dict(impl_steps=len(states), model_steps=len(mstates),
+                           impl_last=states[-1] if isinstance(states[-1], tuple) else "state",
+                           correspondence="Model.Probe.trace_ops (extracted)"), found))
+        return len(states), finds
+    for step, (st, mt) in enumerate(zip(states, mstates)):
+        if isinstance(st, tuple) or mt == "E":
+            if not (isinstance(st, tuple) and mt == "E"):
+                finds.append(("tie:error", "implementation and model disagree on whether an operation raises",
+                              dict(step=step, impl=st if isinstance(st, tuple) else "state", model=mt if mt == "E" else "state",
+                                   correspondence="Model.Probe.apply_op (extracted)"), found))
+            break
+        mf, raises = model_flat(mt)
+        if raises or mf.shape != st["flat"].shape:
+            finds.append(("tie:shape", "model state has a different layout (orientations_pcs raises in the model?)",
+                          dict(step=step, correspondence="Model.Probe.orientations_pcs"), found))
+            break
+        if h["exact"]:
+            ok = np.array_equal(mf, st["flat"])
+        else:
+            ok = bool(np.all(np.abs(mf - st["flat"]) <= TOL * max(scale, 1.0)))      # unit vectors: absolute 1e-10
+            if ok:
+                n3 = 3 * len(st["locs"])
+                ok = bool(np.all(np.abs(mf[:n3] - st["flat"][:n3]) <= TOL * scale))
+        if not ok:
+            idx = int(np.argmax(np.abs(mf - st["flat"])))
+            finds.append(("tie:state" + (":exact" if h["exact"] else ""),
+                          "implementation state differs from the model state after an operation",
+                          dict(step=step, op=jsonable(h["ops"][step - 1]) if step else "construction", flat_index=idx,
+                               impl=float(st["flat"][idx]).hex(), model=float(mf[idx]).hex(),
+                               layout="locs, oris?, origin, i, j, k, locs_pcs, oris_pcs?, exported(n,3,3)",
+                               correspondence="Model.Probe.trace_ops (extracted)"), found))
+            break
+    return len(states), finds
+
+
+SHRUNK = [0]
+
+
+def shrink(h, key):
+    """greedy deletion of operations (then of trailing elements' worth of history) while a finding with
+    the same key persists; bounded effort"""
+    cur = dict(h, ops=list(h["ops"]))
+    changed = True
+    budget = 200
+    while changed and budget > 0:
+        changed = False
+        for i in range(len(cur["ops"]) - 1, -1, -1):
+            cand = dict(cur, ops=cur["ops"][:i] + cur["ops"][i + 1:])
+            budget -= 1
+            try:
+                _, f = judge(cand, drv.run([history_line(cand)])[0])
+            except Exception:
+                continue
+            if any(k == key for k, *_ in f):
+                cur = cand
+                changed = True
+            if budget <= 0:
+                break
+    return cur
+
+
 def check_batch(hists):
     global evaluations
     lines = [history_line(h) for h in hists]
     outs = drv.run(lines)
     for h, line, out in zip(hists, lines, outs):
-        states, fc_ok = run_impl(h)
-        mstates = parse_model(out)
-        evaluations += len(states)
-        scale = history_scale(h)
-        rep = {"history": jsonable({k: h[k] for k in ("probe", "ori", "ops")}), "kind": h["kind"], "driver_line": line}
+        nstates, finds = judge(h, out)
+        evaluations += nstates
         chk.count(kind=h["kind"], nops=len(h["ops"]))
         if h["probe"][0] == "M":
-            chk.count(numx=h["probe"][1], numy=h["probe"][3], pitch_signs=f"{np.sign(h['probe'][2]):+.0f}{np.sign(h['probe'][4]):+.0f}")
+            chk.count(numx=int(h["probe"][1]), numy=int(h["probe"][3]), pitch_signs=f"{np.sign(h['probe'][2]):+.0f}{np.sign(h['probe'][4]):+.0f}")
         for op in h["ops"]:
             chk.count(op=op[0] if op[0] != "S" else "S:" + (op[1] if isinstance(op[1], str) else ("idx" if op[1] >= 0 else "negidx")))
-        # ---- spec predicates on the implementation
-        spec_bad = []
-        if h["proper"] and not isinstance(states[0], tuple):
-            spec_bad = spec_checks(h, states, scale)
-            st0 = states[0]
-            if h["probe"][0] == "M":
-                spec_bad += matrix_probe_spec(h, st0, scale)
-            for key, msg, step in spec_bad[:3]:
-                chk.violation("spec:" + key, f"{msg} (after operation {step} of the history)", dict(rep, step=step, predicate=key))
-        if fc_ok is False:
-            chk.violation("spec:frame_condition", "a motion changed frequency / dimensions / dead_elements / metadata", rep)
-        if h.get("expect_error") and not isinstance(states[-1], tuple):
-            chk.violation("spec:error_expected", "an invalid operation (index out of range / non-normalised axes / bad sizes) did not raise",
-                          rep)
-        # ---- correspondence
-        if len(states) != len(mstates):
-            chk.violation("tie:length", "implementation and model stop at different operations",
-                          dict(rep, impl_steps=len(states), model_steps=len(mstates),
-                               impl_last=states[-1] if isinstance(states[-1], tuple) else "state",
-                               correspondence="Model.Probe.trace_ops (extracted)"), failing_input_found=bool(spec_bad))
-            continue
-        for step, (st, mt) in enumerate(zip(states, mstates)):
-            if isinstance(st, tuple) or mt == "E":
-                if not (isinstance(st, tuple) and mt == "E"):
-                    chk.violation("tie:error", "implementation and model disagree on whether an operation raises",
-                                  dict(rep, step=step, impl=st if isinstance(st, tuple) else "state", model=mt if mt == "E" else "state",
-                                       correspondence="Model.Probe.apply_op (extracted)"), failing_input_found=bool(spec_bad))
-                break
-            mf, raises = model_flat(mt)
-            if raises or mf.shape != st["flat"].shape:
-                chk.violation("tie:shape", "model state has a different layout (orientations_pcs raises in the model?)",
-                              dict(rep, step=step, correspondence="Model.Probe.orientations_pcs"), failing_input_found=bool(spec_bad))
-                break
-            if h["exact"]:
-                ok = np.array_equal(mf, st["flat"])
-            else:
-                ok = bool(np.all(np.abs(mf - st["flat"]) <= TOL * max(scale, 1.0)))      # unit vectors: absolute 1e-10
-                if ok:
-                    n3 = 3 * len(st["locs"])
-                    ok = bool(np.all(np.abs(mf[:n3] - st["flat"][:n3]) <= TOL * scale))
-            if not ok:
-                idx = int(np.argmax(np.abs(mf - st["flat"])))
-                chk.violation("tie:state" + (":exact" if h["exact"] else ""),
-                              "implementation state differs from the model state after an operation",
-                              dict(rep, step=step, op=jsonable(h["ops"][step - 1]) if step else "construction", flat_index=idx,
-                                   impl=float(st["flat"][idx]).hex(), model=float(mf[idx]).hex(),
-                                   layout="locs, oris?, origin, i, j, k, locs_pcs, oris_pcs?, exported(n,3,3)",
-                                   correspondence="Model.Probe.trace_ops (extracted)"), failing_input_found=bool(spec_bad))
-                break
-        nontrivial.add(json.dumps(jsonable([h["probe"][:1] + ([h["probe"][1], h["probe"][3]] if h["probe"][0] == "M" else [len(h["probe"][1])]),
+        if finds:
+            rep = {"history": jsonable({k: h[k] for k in ("probe", "ori", "ops")}), "kind": h["kind"], "driver_line": line}
+            if SHRUNK[0] < 3 and len(h["ops"]) > 1:
+                SHRUNK[0] += 1
+                small = shrink(h, finds[0][0])
+                rep["shrunk_history_for_first_finding"] = jsonable({k: small[k] for k in ("probe", "ori", "ops")})
+                rep["shrunk_driver_line"] = history_line(small)
+            for key, what, extra, found in finds:
+                chk.violation(key, what, dict(rep, **extra), failing_input_found=found)
+        nontrivial.add(json.dumps(jsonable([h["probe"][:1] + ([int(h["probe"][1]), int(h["probe"][3])] if h["probe"][0] == "M" else [len(h["probe"][1])]),
                                             [op[0] if op[0] != "S" else str(op[1]) for op in h["ops"]]])))
 
 
 def matrix_probe_spec(h, st0, scale):
     """make_matrix_probe: element iy*numx+ix at ((ix-(numx-1)/2) px, (iy-(numy-1)/2) py, 0); PCS = GCS"""
     _, nx, px, ny, py = h["probe"]
+    nx, ny = int(nx), int(ny)
     px = 0.0 if nx == 1 else px
     py = 0.0 if ny == 1 else py
     want = np.array([[(ix - (nx - 1) / 2) * px, (iy - (ny - 1) / 2) * py, 0.0] for iy in range(ny) for ix in range(nx)])
@@ -730,7 +791,7 @@ def cori(o):
 
 
 if not chk.args.no_proofs or os.environ.get("VERIF_C16_COQ_SHARD"):
-    shard = [h for h in exact_hists if h["probe"][0] == "M" and h["probe"][1] * h["probe"][3] <= 8][:60 if Q else 200]
+    shard = [h for h in exact_hists if h["probe"][0] == "M" and int(h["probe"][1]) * int(h["probe"][3]) <= 8][:60 if Q else 200]
     cases = []
     for h in shard:
         states, _ = run_impl(h)
